@@ -520,6 +520,43 @@ pub fn run_c15(out: &mut Out, tier: &str, seed: u64) {
             out.count("constructions");
         }
     }
+    // consuming iterators are values too: a cloned IntoIter is independent of the one it was cloned from, and of the
+    // array (parsed, owned or shared with an earlier clone) it came from
+    for _ in 0..(if tier == "thorough" { 3000 } else { 400 }) {
+        let n = rng.range(1, 6);
+        let text = format!("[{}]", (0..n).map(|i| format!("{{\"i\":{i}}}")).collect::<Vec<_>>().join(","));
+        let how = rng.below(3);
+        let k = rng.below(n + 1);
+        let r = guarded(|| {
+            let v: Value = sonic_rs::from_str(&text).unwrap();
+            let keep = v.clone();
+            let arr = match how {
+                0 => v.into_array().unwrap(),
+                1 => {
+                    let mut a = v.into_array().unwrap();
+                    a.push(Value::new());
+                    a.pop();
+                    a
+                }
+                _ => keep.clone().into_array().unwrap(),
+            };
+            let mut it = arr.into_iter();
+            let mut first: Vec<Value> = Vec::new();
+            for _ in 0..k {
+                first.push(it.next().unwrap());
+            }
+            let other = it.clone();
+            let a: Vec<String> = other.map(|x| sorted_dump(&x)).collect();
+            let b: Vec<String> = it.map(|x| sorted_dump(&x)).collect();
+            let want: Vec<String> = keep.as_array().unwrap().iter().skip(k).map(sorted_dump).collect();
+            (a == want, b == want, sorted_dump(&keep) == sorted_dump(&sonic_rs::from_str::<Value>(&text).unwrap()))
+        });
+        out.case("expect", &["a cloned IntoIter, the original and the source document yield the same elements", &format!("{text} how={how} k={k}")], &match r {
+            Ok((true, true, true)) => "true".to_string(),
+            Ok(t) => format!("{t:?}"),
+            Err(p) => format!("panic:{p}"),
+        }, true);
+    }
     let n = if tier == "thorough" { 20000 } else { 2500 };
     let cfg = Cfg { max_depth: 2, max_width: 3, dup_free: true, long_strings: false, ..Cfg::default() };
     for _ in 0..n {
